@@ -18,18 +18,19 @@ Local Open Scope N_scope.
 
 (* the GLSA range operators *)
 Inductive cmpop := CLt | CLe | CEq | CGe | CGt.
-Definition glsa_op (op : str) : option (bool * cmpop) :=       (* (revision form?, comparison) *)
-  match op with
-  | [108; 116] => Some (false, CLt) | [108; 101] => Some (false, CLe) | [101; 113] => Some (false, CEq)
-  | [103; 101] => Some (false, CGe) | [103; 116] => Some (false, CGt)
-  | [114; 108; 116] => Some (true, CLt) | [114; 108; 101] => Some (true, CLe)
-  | [114; 103; 101] => Some (true, CGe) | [114; 103; 116] => Some (true, CGt)
-  | _ => None
-  end.
+Definition glsa_ops : list (str * (bool * cmpop)) :=      (* name -> (revision form?, comparison) *)
+  [ ([108; 116], (false, CLt)); ([108; 101], (false, CLe)); ([101; 113], (false, CEq));
+    ([103; 101], (false, CGe)); ([103; 116], (false, CGt));
+    ([114; 108; 116], (true, CLt)); ([114; 108; 101], (true, CLe));
+    ([114; 103; 101], (true, CGe)); ([114; 103; 116], (true, CGt)) ].
+Fixpoint lookup_op (k : str) (l : list (str * (bool * cmpop))) : option (bool * cmpop) :=
+  match l with [] => None | (k', v) :: l' => if str_eqb k k' then Some v else lookup_op k l' end.
+Definition glsa_op (op : str) : option (bool * cmpop) := lookup_op op glsa_ops.
+(* a comparison result is -1, 0 or 1 (C01's interface) *)
 Definition cmp_holds (o : cmpop) (c : Z) : bool :=
-  match o with
-  | CLt => Z.ltb c 0 | CLe => Z.leb c 0 | CEq => Z.eqb c 0 | CGe => Z.leb 0 c | CGt => Z.ltb 0 c
-  end%Z.
+  memZ c (match o with
+          | CLt => [-1] | CLe => [-1; 0] | CEq => [0] | CGe => [0; 1] | CGt => [1]
+          end)%Z.
 
 (* a well-formed range: operator, slot ("" = every slot), version, revision, glob? *)
 Record wrange := { w_rev_form : bool; w_cmp : cmpop; w_slot : str; w_ver : str; w_rev : option N;
@@ -62,7 +63,7 @@ Definition range_sat (w : wrange) (p : package) : bool :=
 Definition arch_ok (a : option str) (kw : list str) : bool :=
   match a with
   | None => true
-  | Some s => let l := words s in
+  | Some s => let l := words (strip s) in
               is_nil l || smem [c_star] l || existsb (fun x => smem x kw) l
   end.
 
@@ -99,10 +100,12 @@ Definition glob_disagrees (w : wrange) (p : package) : bool :=
 (* K4: rlt without a revision (an empty range): the implementation discards the whole entry *)
 Definition rlt_r0 (w : wrange) : bool :=
   w_rev_form w && negb (w_glob w) && match w_cmp w, w_rev w with CLt, None => true | _, _ => false end.
-(* the revision forms presuppose that, within one version, versions are ordered by revision *)
+(* the revision forms presuppose that the revision is the last tie-breaker of the version order:
+   comparing with revisions = comparing without, and by revision when that is a tie *)
 Definition rev_compat (w : wrange) (p : package) : bool :=
-  implb (Z.eqb (ver_cmp (p_ver p) None (w_ver w) None) 0)
-        (Z.eqb (ver_cmp (p_ver p) (p_rev p) (w_ver w) (w_rev w)) (cmpN (rev_val (p_rev p)) (rev_val (w_rev w)))).
+  let base := ver_cmp (p_ver p) None (w_ver w) None in
+  Z.eqb (ver_cmp (p_ver p) (p_rev p) (w_ver w) (w_rev w))
+        (if Z.eqb base 0 then cmpN (rev_val (p_rev p)) (rev_val (w_rev w)) else base).
 
 Definition known_of (re : rentry) (p : ipkg) : bool :=
   match re with
